@@ -243,6 +243,52 @@ fn build(g: &Grammar, thorough: bool) -> Vec<Case14> {
         }
         out.push(Case14 { label: format!("two modules {order:?}"), class: "two-modules".into(), text: doc.text() });
     }
+    // comments directly inside PROJECT (sort() keeps those) at every position between its children, with the closing
+    // /end PROJECT on its own line and on the line of the last /end MODULE
+    for order in [vec!["mb", "ma"], vec!["ma", "mb"], vec!["only"]] {
+        let mut gen = Gen::new(g);
+        let (mut doc, _) = gen.carrier_v("PROJECT", 5, 0);
+        let p = doc.root.child_mut("PROJECT").unwrap();
+        p.children.clear();
+        gen.reset();
+        let h = gen.min_node("HEADER", 5, 1);
+        p.children.push(h);
+        for mn in &order {
+            gen.reset();
+            let mut m = gen.min_node("MODULE", 5, 0);
+            m.params[0].text = mn.to_string();
+            m.children.push(build_elem(&mut gen, g, &e("MEASUREMENT", "zz", "c1")));
+            m.children.push(build_elem(&mut gen, g, &e("MEASUREMENT", "aa", "c1")));
+            p.children.push(m);
+        }
+        let text = doc.text();
+        let lines: Vec<&str> = text.lines().collect();
+        // positions: in front of every child of PROJECT and in front of /end PROJECT
+        let spots: Vec<usize> = lines.iter().enumerate().filter(|(_, l)| l.starts_with("  /begin ") || l.starts_with("/end PROJECT")).map(|(i, _)| i).collect();
+        for (si, spot) in spots.iter().enumerate() {
+            for (cn, c) in [("line", "  // c"), ("block", "  /* c */"), ("block-multiline", "  /* a\n     b */"), ("line-twice", "  // c\n  // d")] {
+                for joined in [false, true] {
+                    let mut t = String::new();
+                    for (i, l) in lines.iter().enumerate() {
+                        if i == *spot {
+                            t.push_str(c);
+                            t.push('\n');
+                        }
+                        t.push_str(l);
+                        t.push('\n');
+                    }
+                    if joined {
+                        // (only possible when the comment is not the last thing in front of /end PROJECT)
+                        if lines[*spot].starts_with("/end PROJECT") {
+                            continue;
+                        }
+                        t = t.replace("\n/end PROJECT", " /end PROJECT");
+                    }
+                    out.push(Case14 { label: format!("project-level comment {cn} at child position {si} of modules {order:?}, /end PROJECT {}", if joined { "on the line of /end MODULE" } else { "on its own line" }), class: format!("project-comment:{cn}"), text: t });
+                }
+            }
+        }
+    }
     // the rich documents of the corpus and HEADER / version elements
     for d in crate::corpus::rich_docs(g) {
         out.push(Case14 { label: d.label.clone(), class: "rich".into(), text: d.doc.text() });
@@ -284,7 +330,7 @@ pub fn run(tier: &str) -> Run {
     }
     run.require("sequence: sorted correctly", 5000);
     run.require("kind-pair: sorted correctly", 400);
-    run.rule = "all duplicate-free sequences of up to 3 (thorough 4) elements over 6 kinds x the names {aa, ab, b, ba}; every ordered pair of the 22 module-level list kinds (two unsorted elements each) with and without comments; each singleton at every position; two modules in both orders; the rich corpus documents. Oracle: every list holds the same elements (content) after sort(); in the written text each kind is contiguous and names ascend within a kind; the written file reloads to an equal model in equal list order and is a textual fixpoint; a second sort() changes neither model nor text.".into();
+    run.rule = "all duplicate-free sequences of up to 3 (thorough 4) elements over 6 kinds x the names {aa, ab, b, ba}; every ordered pair of the 22 module-level list kinds (two unsorted elements each) with and without comments; each singleton at every position; two modules in both orders; comments (4 shapes) directly inside PROJECT at every child position x /end PROJECT on its own line / on the line of the last /end MODULE; the rich corpus documents. Oracle: every list holds the same elements (content) after sort(); in the written text each kind is contiguous and names ascend within a kind; the written file reloads to an equal model in equal list order and is a textual fixpoint; a second sort() changes neither model nor text.".into();
     run.assumptions = vec!["names are lower-case ASCII without digits, so every reasonable reading of 'alphabetical' agrees".into()];
     run
 }
